@@ -93,6 +93,16 @@ def parseMetadata (src : List Nat) (server : Bool) : Outcome (Option Meta) :=
           | none => .ok none
           | some (idx', mask) => .ok (some ⟨idx', finished, opcode, length, mask⟩)
 
+/-- `apply_mask` as specified by its fallback (`byte ^= mask[i & 3]`, mask.rs:12); the word-wise
+fast path is work-stream C14's subject.  Length-preserving. -/
+def applyMaskFrom (i : Nat) (mask : List Nat) : List Nat → List Nat
+  | [] => []
+  | b :: bs => (b ^^^ mask.getD (i % 4) 0) :: applyMaskFrom (i + 1) mask bs
+
+def unmask (data : List Nat) : Option (List Nat) → List Nat
+  | some m => applyMaskFrom 0 m data
+  | none => data
+
 /-- result of `Parser::parse` -/
 inductive Parsed where
   | none                                              -- `Ok(None)`
@@ -130,7 +140,7 @@ def parse (src : List Nat) (cap : Nat) (server : Bool) (maxSize : Nat) : Outcome
           let (data, rest) ← splitTo "frame.rs:128 src.split_to(length)" src1 m.length
           if (m.opcode = .ping ∨ m.opcode = .pong) ∧ m.length > 125 then .err "InvalidLength"
           else if m.opcode = .close ∧ m.length > 125 then return (.frame true .close none, rest)
-          else return (.frame m.finished m.opcode (some data), rest)   -- (unmasking does not change the length)
+          else return (.frame m.finished m.opcode (some (unmask data m.mask)), rest)
 
 /-- `Parser::parse_close_payload`: `some (code, hasDescription)` -/
 def parseClosePayload (payload : List Nat) : Outcome (Option (Nat × Option (List Nat))) :=
